@@ -296,6 +296,29 @@ pub fn backup_cb(t: Transport, src: &Path, o: Opts, cb: Arc<dyn Fn(&str) + Send 
 /// As a band number: "the latest band, complete or not" (BandSelectionPolicy::Latest).
 pub const LATEST: u32 = u32::MAX;
 
+/// A backup whose caller gives up: the change callback returns an error at its `after`-th call
+/// (what the command-line tool does when it cannot write its change report).
+pub fn backup_stopped_by_caller(t: Transport, src: &Path, o: Opts, after: usize) -> Outcome<BackupStats> {
+    let src = src.to_path_buf();
+    run(move |monitor| {
+        block_on(async {
+            let archive = open_archive(t).await?;
+            let mut options = backup_opts(o, &[], None);
+            let calls = std::sync::atomic::AtomicUsize::new(0);
+            options.change_callback = Some(Box::new(move |_ch: &EntryChange| {
+                if calls.fetch_add(1, std::sync::atomic::Ordering::SeqCst) + 1 >= after {
+                    Err(conserve::Error::NotImplemented)
+                } else {
+                    Ok(())
+                }
+            }) as conserve::ChangeCallback);
+            conserve::backup(&archive, &src, &options, monitor)
+                .await
+                .map_err(errstr)
+        })
+    })
+}
+
 pub fn sel(band: Option<u32>) -> BandSelectionPolicy {
     match band {
         Some(LATEST) => BandSelectionPolicy::Latest,
